@@ -8,7 +8,8 @@
 (* comment, an inline block comment, a multi-line block comment, a doc     *)
 (* comment, a run of blank lines and a line comment on its own line.       *)
 (* Breadth-first search with MaxIns = 1 enumerates every single insertion; *)
-(* `-simulate -depth 3` with a fixed seed and MaxIns = 2 samples pairs.    *)
+(* PairNext with MaxIns = 2 enumerates every pair of comments at           *)
+(* neighbouring token boundaries.                                          *)
 (* vh-fmt renders a variant textually.                                     *)
 (***************************************************************************)
 EXTENDS Naturals, Sequences, TLC, Json, IOUtils
@@ -29,6 +30,13 @@ Insert(b, k) ==
     /\ UNCHANGED seed
 
 Next == \E b \in 0..Seeds[seed].ntok, k \in Kinds : Insert(b, k)
+
+\* pairs, exhaustively for the interacting case: a trailing or inline comment followed by a second
+\* comment at the next token boundary
+PairNext ==
+    IF ins = <<>>
+    THEN \E b \in 0..Seeds[seed].ntok, k \in {"line", "block"} : Insert(b, k)
+    ELSE \E k \in {"line", "block", "nlline"} : Insert(ins[1][1] + 1, k)
 
 \* one replay record per complete variant
 PrintReplay ==
